@@ -249,6 +249,34 @@ func run(r *vk.Run, c Case) {
 				r.Count("isolated_late_blocks_not_judged", int64(late))
 			}
 		}
+	case "stream":
+		// notifications keep arriving closer together than one block interval: each of them is entitled to a block
+		// within one block interval, so blocks must keep coming at the block cadence (the idle timer is far away)
+		if !rec.waitStarts(1, lostWatchdog) || !rec.waitEnds(1, lostWatchdog) {
+			r.Inconclusive("first production did not finish")
+			return
+		}
+		time.Sleep(2 * block)
+		have := rec.nStarts()
+		gap := block * time.Duration(c.Offsets[0]) / 100
+		window := 12 * block
+		t0 := time.Now()
+		for time.Since(t0) < window {
+			n.M.NotifyNewTransactions()
+			time.Sleep(gap)
+		}
+		got := rec.nStarts() - have
+		nominal := int(time.Since(t0) / block)
+		r.Hit("stream-not-starved")
+		r.Count("stream_blocks_observed", int64(got))
+		switch {
+		case got == 0:
+			r.Violation("stream-not-starved", fmt.Sprintf("notifications every %v for %v (block interval %v, idle interval %v) and not a single block was produced", gap, time.Since(t0), block, time.Duration(c.Ratio)*block), wit(""))
+		case got < nominal/4:
+			r.Inconclusive(fmt.Sprintf("stream: only %d blocks in %d block intervals (machine load?)", got, nominal))
+		case got > nominal+2:
+			r.Violation("cadence-upper", fmt.Sprintf("%d blocks in %d block intervals under a notification stream", got, nominal), wit(""))
+		}
 	case "idle", "normal":
 		interval := block
 		if c.Kind == "idle" {
@@ -300,7 +328,7 @@ func run(r *vk.Run, c Case) {
 // Run is the check entry point.
 func Run(r *vk.Run) {
 	world.Silence()
-	r.Rule = "the real AggregationLoop with the production function replaced by a recorder (the package's own test seam); scenarios: (inflight) lazy mode, idle interval 1 h, a production is held in flight, notifications arrive at swept offsets, after release a further production must start; (ondemand) lazy mode, block interval 20|50 ms, idle/block ratio 2|4|20, production duration 0|50|200 % of the block interval, 8 notifications at swept offsets: each must be followed by a block, gaps below half a block interval and latencies above three block intervals are judged only when they occur in >= 3 of 8 samples; (idle) no notifications, ratio 1|2|4: block count over 24 idle intervals; (normal) normal mode with and without a notification storm: block count over 24 block intervals. non-trivial = at least one notification; distinct by parameter tuple"
+	r.Rule = "the real AggregationLoop with the production function replaced by a recorder (the package's own test seam); scenarios: (inflight) lazy mode, idle interval 1 h, a production is held in flight, notifications arrive at swept offsets, after release a further production must start; (ondemand) lazy mode, block interval 20|50 ms, idle/block ratio 2|4|20, production duration 0|50|200 % of the block interval, 8 notifications at swept offsets: each must be followed by a block, gaps below half a block interval and latencies above three block intervals are judged only when they occur in >= 3 of 8 samples; (stream) notifications every 0.2-0.7 block intervals for 12 block intervals with the idle interval 40x away: blocks must keep coming; (idle) no notifications, ratio 1|2|4: block count over 24 idle intervals; (normal) normal mode with and without a notification storm: block count over 24 block intervals. non-trivial = at least one notification; distinct by parameter tuple"
 	r.Assume("decisions rest on real time only where load can merely make the implementation look better (timers never fire early; a production that does not start within 15 s although the idle interval is 1 h was not going to start); isolated early/late samples are counted, not judged")
 	rng := r.Rand("cases")
 	var cases []Case
@@ -333,6 +361,9 @@ func Run(r *vk.Run) {
 				}
 			}
 		}
+	}
+	for k := 0; k < r.N(2, 8); k++ {
+		add(Case{Kind: "stream", BlockMs: []int{25, 50}[k%2], Ratio: 40, Offsets: []int{20 + rng.Intn(50)}, ProdPct: []int{0, 50}[k%2]})
 	}
 	for k := 0; k < r.N(1, 4); k++ {
 		for _, ratio := range []int{1, 2, 4} {
